@@ -171,7 +171,19 @@ class State:
         nxt = fresh_const("alloc", ty.IntS)
         self.assume(nxt == addr + 1)
         self.alloc = nxt
+        # dynamic class of the new object (for isinstance on opaque values)
+        from .values import const_id
+        key = ("<obj>", "cls")
+        if key not in self.heap:
+            self.heap[key] = (initial_array("<obj>", "cls", 0, ty.IntS),)
+        self.heap[key] = (z3.Store(self.heap[key][0], addr, z3.IntVal(const_id(f"class:{cls}"))),)
         return VRef(addr, cls, T)
+
+    def cls_of(self, t):
+        key = ("<obj>", "cls")
+        if key not in self.heap:
+            self.heap[key] = (initial_array("<obj>", "cls", 0, ty.IntS),)
+        return z3.Select(self.heap[key][0], t)
 
     # ------------------------------------------------------------------
     # dict objects on the heap: components dom / val_i / len
